@@ -76,7 +76,12 @@ func unescape(s string) (string, error) {
 	}
 
 	var t strings.Builder
-	t.Grow(len(s) - 2*count)
+	if n := len(s) - 2*count; n > 0 {
+		// n is negative for malformed input like "%" where the escape
+		// sequences are cut short: Grow would panic, and the loop below
+		// reports the error.
+		t.Grow(n)
+	}
 
 	for i := uint(0); i < uint(len(s)); i++ {
 		switch s[i] {
